@@ -17,7 +17,7 @@ from vv.util import deq, getp, put
 from vv.props import c06
 
 ID = 'C07'
-CASES = {'quick': 200, 'thorough': 3000}
+CASES = {'quick': 500, 'thorough': 30000}
 RULE = ('(static) hierarchy-first wiring specs as in C06 (plain, "..", _path '
         'split, rename, leaf, glob with/without sub-topology, aliasing, '
         'output-only ports) with a background process declaring every other '
